@@ -17,6 +17,8 @@ OneOp == CASE Coin(12) -> [a |-> RS({"StartK", "StopK"})]        \* starting / s
            [] Coin(3) -> [a |-> "Bulk", flags |-> Flags, act |-> Act]
            [] Coin(2) -> [a |-> "Query", flags |-> Flags]
            [] Coin(3) -> [a |-> "Proofs"]
+           \* a streaming proof query whose context ends after ms milliseconds (writer and closer of the stream race)
+           [] Coin(3) -> [a |-> "Reader", flags |-> Flags, ms |-> RS({0, 1, 3, 50})]
            [] OTHER -> [a |-> "Act", w |-> RS(W), act |-> RS(Acts)]
 ThreadOps == LET n == RS(8..20) IN [i \in 1..n |-> OneOp]
 GInit == hist = <<>>
